@@ -3,14 +3,17 @@ package main
 import (
 	"bytes"
 	"fmt"
+	"net"
 	"reflect"
 	"regexp"
+	"sort"
 	"strings"
 
 	"github.com/gopacket/gopacket"
 	"github.com/gopacket/gopacket/layers"
 
 	"verif/harness/internal/corpus"
+	"verif/harness/internal/gen"
 	"verif/harness/internal/sig"
 	"verif/harness/internal/vlib"
 )
@@ -20,6 +23,7 @@ func init() {
 	vlib.Register("C06", "stacks", c06Stacks)
 	vlib.Register("C07", "buffers", c07Buffers)
 	vlib.Register("C07", "fields", c07Fields)
+	vlib.Register("C07", "zero", c07Zero)
 }
 
 var optsAll = []gopacket.SerializeOptions{{}, {FixLengths: true}, {ComputeChecksums: true}, {FixLengths: true, ComputeChecksums: true}}
@@ -542,7 +546,9 @@ type poisonBuffer struct {
 	poison byte
 }
 
-func newPoison(p byte) *poisonBuffer { return &poisonBuffer{data: make([]byte, 4096), start: 2048, poison: p} }
+func newPoison(p byte) *poisonBuffer {
+	return &poisonBuffer{data: make([]byte, 4096), start: 2048, poison: p}
+}
 func (w *poisonBuffer) Bytes() []byte { return w.data[w.start:] }
 func (w *poisonBuffer) PrependBytes(n int) ([]byte, error) {
 	if n < 0 {
@@ -580,7 +586,7 @@ func (w *poisonBuffer) Clear() error {
 	w.layers = w.layers[:0]
 	return nil
 }
-func (w *poisonBuffer) Layers() []gopacket.LayerType { return w.layers }
+func (w *poisonBuffer) Layers() []gopacket.LayerType   { return w.layers }
 func (w *poisonBuffer) PushLayer(t gopacket.LayerType) { w.layers = append(w.layers, t) }
 
 func dirtyBuffer() gopacket.SerializeBuffer {
@@ -927,5 +933,123 @@ func c07FieldsCheck(c *vlib.Ctx, r *vlib.Rand, it c06Item, how string) {
 	c.CountIn("constructed_values_per_type", tk, 1)
 	if c.WantSample() {
 		c.Sample(map[string]any{"layer": it.t.String(), "fields_changed": changed, "result": map[bool]string{true: "bytes", false: "error"}[rs[0].err == nil]})
+	}
+}
+
+// ---- C07 zero: every serializable type, starting from its zero value ------------------------------------------------------
+
+// c07Zero writes, for every exported struct type of the library that implements SerializableLayer (constructors generated
+// from the source tree, so no type is missed because no corpus input decodes to it), the zero value and values grown from
+// it by setting 1-5 public fields - "any layer value built through public fields" taken literally. Same oracle as the
+// fields phase: no panic, and the same bytes or the same error-ness whatever the buffer held before.
+func c07Zero(c *vlib.Ctx) {
+	var names []string
+	for n := range gen.New {
+		if _, ok := gen.New[n]().(gopacket.SerializableLayer); ok {
+			names = append(names, n)
+		}
+	}
+	sort.Strings(names)
+	perType := c.Pick(150, 4000)
+	ip4 := &layers.IPv4{Version: 4, SrcIP: net.IP{10, 0, 0, 1}, DstIP: net.IP{10, 0, 0, 2}, Protocol: layers.IPProtocolUDP}
+	ip6 := &layers.IPv6{Version: 6, SrcIP: net.ParseIP("fe80::1"), DstIP: net.ParseIP("fe80::2")}
+	for ni, name := range names {
+		if ni%c.NBatch != c.Batch {
+			continue
+		}
+		if !c.Begin(ni) {
+			continue
+		}
+		r := c.Rand(vlib.HashString(name))
+		tk := strings.TrimPrefix(strings.TrimPrefix(name, "layers."), "gopacket.")
+		for i := 0; i < perType; i++ {
+			seed, k := r.U64(), 0
+			if i >= 8 {
+				k = r.Range(1, 5)
+			}
+			o := optsAll[i%4]
+			payload := r.Bytes([]int{0, 0, 1, 5, 40, 1473}[r.Intn(6)])
+			var nl gopacket.NetworkLayer
+			switch r.Intn(3) {
+			case 1:
+				nl = ip4
+			case 2:
+				nl = ip6
+			}
+			var changed []string
+			mk := func() gopacket.SerializableLayer {
+				l := gen.New[name]().(gopacket.SerializableLayer)
+				if k > 0 {
+					changed = mutateFields(l, seed, k)
+				}
+				if ns, ok := l.(netSetter); ok && nl != nil {
+					ns.SetNetworkLayerForChecksum(nl)
+				}
+				return l
+			}
+			det := func() map[string]any {
+				return map[string]any{"type": name, "start": "zero value", "fields_changed": changed, "field_seed": seed, "field_changes": k, "payload_len": len(payload), "options": soString(o), "network_layer_for_checksum": fmt.Sprintf("%T", nl)}
+			}
+			c07Write(c, "zero", tk, name, mk, payload, o, &changed, det, vlib.Mix(vlib.HashString(name), seed))
+		}
+		c.CountIn("zero_value_types", tk, perType)
+		c.End()
+	}
+}
+
+// c07Write writes mk() into a fresh, a dirty and two poisoned buffers and compares.
+func c07Write(c *vlib.Ctx, prefix, tk, what string, mk func() gopacket.SerializableLayer, payload []byte, o gopacket.SerializeOptions, changed *[]string, det func() map[string]any, nt uint64) {
+	type res struct {
+		name string
+		out  []byte
+		err  error
+	}
+	var rs []res
+	for _, bk := range []string{"fresh", "dirty", "poison-a5", "poison-5a"} {
+		var buf gopacket.SerializeBuffer
+		switch bk {
+		case "fresh":
+			buf = gopacket.NewSerializeBuffer()
+		case "dirty":
+			buf = dirtyBuffer()
+		case "poison-a5":
+			buf = newPoison(0xA5)
+		default:
+			buf = newPoison(0x5A)
+		}
+		var out []byte
+		var err error
+		pi := vlib.Guard(func() {
+			l := mk()
+			err = gopacket.SerializeLayers(buf, o, l, gopacket.Payload(payload))
+			if err == nil {
+				out = append([]byte{}, buf.Bytes()...)
+			}
+		})
+		c.Evals(1)
+		if pi != nil {
+			c.Violation(prefix+":"+pi.Key, fmt.Sprintf("serializing a %s built through its public fields (%s; %s) panicked at %s:%d: %s", what, strings.Join(*changed, "; "), soString(o), pi.File, pi.Line, pi.Value), det())
+			return
+		}
+		rs = append(rs, res{bk, out, err})
+	}
+	for _, x := range rs[1:] {
+		if (x.err == nil) != (rs[0].err == nil) {
+			c.Violation(prefix+":error-depends-on-buffer:"+tk, fmt.Sprintf("%s (%s): the %s buffer gives err=%v, a fresh buffer err=%v", what, strings.Join(*changed, "; "), x.name, x.err, rs[0].err), det())
+			return
+		}
+		if x.err == nil && !bytes.Equal(x.out, rs[0].out) {
+			c.Violation(prefix+":output-contains-unwritten-bytes:"+tk, fmt.Sprintf("%s (%s; %s): output with the %s buffer differs from a fresh buffer at byte %d of %d", what, strings.Join(*changed, "; "), soString(o), x.name, firstDiff(x.out, rs[0].out), len(rs[0].out)), det())
+			return
+		}
+	}
+	if rs[0].err == nil {
+		c.Count(prefix+"_values_serialized", 1)
+		c.NonTrivial(nt ^ vlib.HashBytes(rs[0].out))
+	} else {
+		c.Count(prefix+"_values_rejected_with_error", 1)
+	}
+	if c.WantSample() {
+		c.Sample(map[string]any{"type": what, "fields_changed": *changed, "result": map[bool]string{true: "bytes", false: "error"}[rs[0].err == nil]})
 	}
 }
